@@ -129,6 +129,16 @@ def replay(case):
             if np.any(np.diff(np.real(ev)) > 1e-9 * scale):
                 out.append(('amuset:order', 'eigenvalues are not returned in descending order'))
                 break
+            # slow dynamics: drift x 2^-34, diffusion x 2^-17 scale the generator (and its spectrum) by 2^-34
+            kws = dict(kw)
+            if 'b' in kws:
+                kws['b'] = caller_array(np.array(b) * 2.0 ** -34, 0)
+            evs, _, _ = quiet(tg.amuset_hosvd, x, basis(), caller_array(np.array(sig) * 2.0 ** -17, 1), return_option=opt, **kws)
+            evs = np.asarray(evs)
+            if evs.shape != ev.shape or np.max(np.abs(np.sort(np.real(evs)) * 2.0 ** 34 - np.sort(np.real(ev)))) > 1e-6 * scale:
+                out.append(('amuset:scaled-coefficients', 'drift x 2^-34 and diffusion x 2^-17 do not give the spectrum scaled by 2^-34: %r vs %r' % (
+                    np.round(np.sort(np.real(evs)) * 2.0 ** 34, 6), np.round(np.sort(np.real(ev)), 6))))
+                break
             # lattice data stored with an integer dtype
             evi, _, _ = quiet(tg.amuset_hosvd, x.astype(np.int64), basis(), sig, return_option=opt, **kw)
             evi = np.asarray(evi)
